@@ -9,7 +9,7 @@ Structural clauses decided (all paths of tracing-core/src/dispatch.rs):
 """
 from rulekit import Facts, where, proj_names
 from rulekit.sym import PathEval, show
-from rulekit.query import drop_blocks, dropped_on_all_exits
+from rulekit.query import drop_blocks, dropped_on_all_exits, closure_of_term
 
 D = "tracing_core::dispatch::"
 ORD_RANK = {"Relaxed": 0, "Release": 1, "Acquire": 1, "AcqRel": 2, "SeqCst": 3}
@@ -293,7 +293,23 @@ def r3(ck, F):
         none_calls = rows.get(0, [])
         some_calls = rows.get(1, [])
         key = "%s: None -> get_global(), Some -> the scoped default" % rp.replace(D, "")
-        if D + "get_global" in none_calls and D + "get_global" not in some_calls:
+        # same table written with a combinator: default.as_ref().unwrap_or_else(|| get_global()) (or unwrap_or(get_global()))
+        combinator = False
+        if not rows:
+            for p in PathEval(rb).run():
+                for c in p.calls:
+                    nm = c[1].get("method")
+                    if nm in ("unwrap_or_else", "unwrap_or") and "Option" in c[1].get("path", "") and "default" in show(c[2][0]):
+                        alt = c[2][1]
+                        cd = closure_of_term(alt)
+                        if cd and F.body(cd):
+                            rets = {show(q.ret) for q in PathEval(F.body(cd)).run() if q.end == "return"}
+                            combinator = rets == {"get_global()"}
+                        elif show(alt) == "get_global()":
+                            combinator = True
+        if combinator:
+            ck.ok("C02.R3", key, fn=rp, detail="Option combinator with get_global() as the None alternative")
+        elif D + "get_global" in none_calls and D + "get_global" not in some_calls:
             ck.ok("C02.R3", key, fn=rp)
         else:
             ck.bad("C02.R3", key, where(rb.raw["sp"]), "reader table: None->%s Some->%s" % (none_calls, some_calls), fn=rp)
